@@ -138,6 +138,30 @@ def directed_scm_variants():
         return None, ['harness problem: %r' % (ex,)]
     finally: shutil.rmtree(base, ignore_errors=True)
 
+def directed_tool_variants():
+    """a tool-providing package whose variants differ only in what the tool hands to its users (provideTools environment): the ids and
+    environments of a consumer do not depend on which roots exist or on the order in which they are parsed"""
+    base = tempfile.mkdtemp(prefix='c03t-')
+    try:
+        def model(roots):
+            R = {'tool': {'packageScript': 'true\n', 'provideTools': {'t': {'path': '.', 'environment': {'TOOL_FLAVOUR': '${FLAVOUR}'}}}},
+                 'lib': {'depends': [{'name': 'tool', 'use': ['tools']}], 'packageTools': ['t'], 'packageVars': ['TOOL_FLAVOUR'], 'packageScript': 'echo "$TOOL_FLAVOUR" > flavour.txt\n'}}
+            for r, fl in roots.items(): R[r] = {'root': True, 'environment': {'FLAVOUR': fl}, 'depends': ['lib'], 'packageScript': 'true\n'}
+            return {'recipes': R, 'config': {}}
+        ref = None
+        for what, roots in (('root b alone', {'b': 'fb'}), ('root a parsed before b', {'a': 'fa', 'b': 'fb'}), ('root z parsed after b', {'b': 'fb', 'z': 'fz'})):
+            d = os.path.join(base, what.replace(' ', '_')); os.makedirs(d); p = P.Project(root=d); p.write(model(roots))
+            q = I.query(p); got = {k: (v['vid'], v['env'].get('TOOL_FLAVOUR')) for k, rec in q.items() if k.startswith('b/') or k == 'b' for l, v in rec['steps'].items() for k in [(k, l)]}
+            env = q['b/lib']['steps']['dist']['env'].get('TOOL_FLAVOUR')
+            if env != 'fb': return {'kind': 'environment-of-a-package-depends-on-other-roots', 'case': what, 'observed': env, 'expected': 'fb'}, [what]
+            if ref is None: ref = got
+            elif got != ref:
+                return {'kind': 'variant-id-depends-on-unrelated-roots', 'case': what, 'steps': sorted(str(k) for k in ref if got.get(k) != ref[k])[:3]}, [what]
+        return None, ['directed tool variants']
+    except Exception as ex:
+        return None, ['harness problem: %r' % (ex,)]
+    finally: shutil.rmtree(base, ignore_errors=True)
+
 def replay(rep):
     import concurrent.futures as cf
     seed = int(os.environ.get('VERIF_SEED', '0') or 0)
@@ -147,7 +171,7 @@ def replay(rep):
     record = {} if os.environ.get('C03_RECORD_GOLDEN') else None
     tried = 0; distinct = set(); samples = []; problems = 0
     with cf.ThreadPoolExecutor(max_workers=8) as ex:
-        futs = [ex.submit(directed_tools), ex.submit(directed_scm_variants)] + [ex.submit(one_case, 7000 + i, golden, record) for i in range(n)]       # fixed seeds: the golden ids refer to them
+        futs = [ex.submit(directed_tools), ex.submit(directed_scm_variants), ex.submit(directed_tool_variants)] + [ex.submit(one_case, 7000 + i, golden, record) for i in range(n)]       # fixed seeds: the golden ids refer to them
         for f in cf.as_completed(futs):
             w, log = f.result(); tried += 1
             if log and (str(log[-1]).startswith('harness problem') or str(log[-1]).startswith('(project invalid')): problems += 1; samples.append({'problem': log[-1]}) if len(samples) < 3 else None; continue
